@@ -25,7 +25,20 @@ class G:
 
     lit_style = 'plain'
 
+    # probability that a keyword position re-uses the text of a keyword issued before (the same literal then occurs in
+    # several roles of one grammar: sequence head, separator, assigned value, suppressed element, match-rule body)
+    preuse = 0.0
+
     def newkw(self):
+        if self.preuse and self.r.random() < self.preuse:
+            pool = getattr(self, 'issued', []) + ['and', 'By']
+            self.used_features.add('keyword-reused')
+            return Lit(self.r.choice(pool))
+        k = self._newkw()
+        self.issued = getattr(self, 'issued', []) + [k.s]
+        return k
+
+    def _newkw(self):
         self.kw += 1
         n = str(self.kw)
         if self.lit_style == 'rich':
